@@ -45,8 +45,13 @@ Definition kind_class (k : tok_kind) : tcl :=
       | KRange => CRange
       | KColon => CColon
       | KCase => CKw KwCase | KOf => CKw KwOf | KEndCase => CKw KwEndCase
-      | KSint | KInt | KDint | KLint | KUsint | KUint | KUdint | KUlint | KReal | KLreal | KTime | KDate | KTimeOfDay | KDateAndTime
-      | KByte | KWord | KDword | KLword => CTyKw
+      | KSint => CTyKw TSint | KInt => CTyKw TInt | KDint => CTyKw TDint | KLint => CTyKw TLint
+      | KUsint => CTyKw TUsint | KUint => CTyKw TUint | KUdint => CTyKw TUdint | KUlint => CTyKw TUlint
+      | KReal => CTyKw TReal | KLreal => CTyKw TLreal
+      | KTime => CTyKw TTime | KDate => CTyKw TDate | KTimeOfDay => CTyKw TTod | KDateAndTime => CTyKw TDt
+      | KByte => CTyKw TByte | KWord => CTyKw TWord | KDword => CTyKw TDword | KLword => CTyKw TLword
+      | KHexDigits => CConst CkHex | KOctDigits => CConst CkOct | KBinDigits => CConst CkBin
+      | KFixedPoint => CConst CkFixed | KFloatingPoint => CConst CkFloat
       | KVar => CDk DkVar | KVarInput => CDk DkVarInput | KVarOutput => CDk DkVarOutput | KVarInOut => CDk DkVarInOut
       | KVarExternal => CDk DkVarExternal | KEndVar => CDk DkEndVar | KConstant => CDk DkConstant | KRetain => CDk DkRetain
       | KNonRetain => CDk DkNonRetain | KREdge => CDk DkREdge | KFEdge => CDk DkFEdge
@@ -57,9 +62,28 @@ Definition kind_class (k : tok_kind) : tcl :=
 
 (* a Digits token is an integer constant when Integer::new accepts it (below 2^128); otherwise constant() fails on
    it and the text is outside the model *)
+(* a real token is a constant of the model when its value is certainly finite: at most 200 characters before the '.', an
+   exponent of at most two digits (RealLiteral::try_parse rejects what f64::from_str reads as infinity; anything longer is
+   outside the model, not misread) *)
+Definition is_e (c : N) : bool := N.eqb c 101 || N.eqb c 69.
+Fixpoint split_at (p : N -> bool) (tx : text) : text * text :=
+  match tx with
+  | [] => ([], [])
+  | c :: r => if p c then ([], r) else let '(a, b) := split_at p r in (c :: a, b)
+  end.
+Definition real_in_model (tx : text) : bool :=
+  let '(whole, rest) := split_at (N.eqb 46) tx in
+  let '(_, ex) := split_at is_e rest in
+  Nat.leb (List.length whole) 200 && Nat.leb (List.length (filter is_digit ex)) 2.
+
 Definition tok_class (t : token) : tcl :=
   match kind_class (t_kind t) with
   | CConst CkInt => match integer_new (t_text t) with Some _ => CConst CkInt | None => COther end
+  | CConst CkHex => match try_hex (t_text t) with Some _ => CConst CkHex | None => COther end
+  | CConst CkOct => match try_octal (t_text t) with Some _ => CConst CkOct | None => COther end
+  | CConst CkBin => match try_binary (t_text t) with Some _ => CConst CkBin | None => COther end
+  | CConst CkFixed => if real_in_model (t_text t) then CConst CkFixed else COther
+  | CConst CkFloat => if real_in_model (t_text t) then CConst CkFloat else COther
   | c => c
   end.
 
@@ -74,7 +98,12 @@ Definition op_level (o : binop) : nat :=
 
 Inductive outcome := OParsed (l : list stmt) | ORejected | OFuel | OScope.
 
-Definition tok_num (t : token) : N := match integer_new (t_text t) with Some v => v | None => 0%N end.
+Definition tok_num (t : token) : N :=
+  match (if kind_eqb (t_kind t) KHexDigits then try_hex (t_text t)
+         else if kind_eqb (t_kind t) KOctDigits then try_octal (t_text t)
+         else if kind_eqb (t_kind t) KBinDigits then try_binary (t_text t)
+         else integer_new (t_text t)) with
+  | Some v => v | None => 0%N end.
 
 Definition st_skip := StParser.skip token tok_class.
 
